@@ -43,7 +43,7 @@ func vfc30NewGaugeVec() vfc30GaugeVec {
 }
 
 // vfc30Bkt bounds the bucket work of one Plan call: the size/downsample filters mark each block at most once (one Exists + one Upload),
-// so a Plan call that issues more than 4*len(metas)+16 bucket operations makes no progress; from then on every operation fails, which
+// so a Plan call that issues more than 8*len(metas)+32 bucket operations makes no progress; from then on every operation fails, which
 // ends the planner's loop (logical-step criterion for non-termination, no clock).
 type vfc30Bkt struct {
 	objstore.Bucket
@@ -402,7 +402,7 @@ func vfc30Run(ctx context.Context, r *vfkit.Run, c int, rng *rand.Rand, cs vfc30
 			r.T.Fatalf("no-compact filter: %v", err)
 		}
 		before := ncFilter.NoCompactMarkedBlocks()
-		pbkt.ops, pbkt.limit = 0, 4*len(metas)+16
+		pbkt.ops, pbkt.limit = 0, 8*len(metas)+32
 		plan, err := planner.Plan(ctx, metas, nil, nil)
 		r.Eval(1)
 		if pbkt.ops > pbkt.limit {
